@@ -16,13 +16,15 @@ PROPERTY = "C03"
 LEVEL = "model_checking"
 CODE = ["yowsup/layers/axolotl/layer_send.py:send/receive/processPlaintextNodeAndSend/sendToContact/sendToGroup*/sendEncEntities/enqueueSent/getEnqueuedMessageNode",
         "yowsup/layers/axolotl/layer_receive.py:receive/onMessage/handleEncMessage/handle*Message/send_retry/processPendingIncomingMessages",
-        "yowsup/layers/axolotl/layer_base.py:getKeysFor", "yowsup/axolotl/manager.py:_generate_random_padding/_unpad (real)",
+        "yowsup/layers/axolotl/layer_base.py:getKeysFor", "yowsup/axolotl/manager.py:_generate_random_padding/_unpad (real); encrypt/decrypt_*/group_* + yowsup/axolotl/store/sqlite/*.py (real, restart case)",
         "yowsup/layers/protocol_messages/layer.py:recvMessageStanza", "yowsup/layers/protocol_media/layer.py:recvMessageStanza",
         "axolotl/protocolentities/message_encrypted.py, enc.py, receipt_outgoing_retry.py, receipt_incoming_retry.py"]
 BOUNDS = {"quick": "one step per run from a solver-chosen pre-state: 1:1 and group sends (session present / absent, sender key present), every decrypt outcome x envelope type, retry receipt, "
-                   "sent-queue bound with 101 sends; message body of symbolic length 0..2^20; ids and JIDs unconstrained strings",
+                   "sent-queue bound with 101 sends; message body of symbolic length 0..2^20; ids and JIDs unconstrained strings; retry loop (receiver's real retry request served by the real sender) after 1-2 failed deliveries, 1:1 and group; "
+                   "restart: REAL managers/stores/ratchets for two parties, 3 messages, 1:1 or group, sender or receiver dies after message 1 or 2",
           "thorough": "same steps (the two-message steps are part of both tiers)"}
-OUTSIDE = ["the real Signal ratchets, stores and restarts under whole conversations (not encodable: pure-Python loops over C curve/AES calls, multi-party histories) -- the property's end-to-end clause is NOT claimed",
+OUTSIDE = ["whole conversations over the real Signal ratchets beyond the restart case (not encodable symbolically: pure-Python loops over C curve/AES calls, multi-party histories) -- the property's end-to-end clause is only "
+           "claimed as step obligations under the ideal stub plus the two-party restart scenarios on the real library",
            "observation: python-axolotl's AESCipher does not pad block-aligned plaintext, so 1 in 16 of yowsup's randomly padded messages cannot be decrypted by the peer (external library, see DESIGN.md)",
            "media payload field values (C10), more than two messages, server faults beyond one duplicate / one undecryptable delivery"]
 ASSUMPTIONS = ["ideal end-to-end functionality at the AxolotlManager boundary: ciphertext is an uninterpreted term of (recipient, counter, plaintext); decrypt outcomes are arbitrary (solver-chosen)",
